@@ -1143,7 +1143,7 @@ def c11(ctx):
 # ---------------------------------------------------------------- C12
 class BoundsRender(GenericRender):
     def generics_decl(self):
-        return '<T, U>' if self.opts['gen'] == 'TU' else "<'a, T: Bnd = u8, const N: usize>"
+        return '<T, U>' if self.opts['gen'] == 'TU' else "<'a, const N: usize, T: Bnd = u8>"
 
     def where_decl(self):
         return '' if self.opts['gen'] == 'TU' else 'where T: Usr'
@@ -1217,7 +1217,7 @@ def c12(ctx):
     ctx.coverage.update({
         'traces_validated_against_impl': 1, 'trace_events': res['n'], 'trace_events_rejected': len(res['bad']),
         'programs': len(corpus), 'evaluations': n_items, 'distinct_nontrivial': sum(1 for c in corpus if any(v != 'auto' for v in c['opts']['bounds'].values())),
-        'rule': 'generic items over two generics descriptors (<T, U>; <\'a, T: Bnd = u8, const N: usize> where T: Usr) x 13 trait sets x bound mode of the set\'s '
+        'rule': 'generic items over two generics descriptors (<T, U>; <\'a, const N: usize, T: Bnd = u8> where T: Usr) x 13 trait sets x bound mode of the set\'s '
                 'primary trait {auto, auto spelled explicitly, bound = false, bound(*), custom predicate} in every spelling x field type classes and delegation attributes; '
                 'every impl item of the in-process expansion is one record (generic parameters, where-predicates, white space removed); '
                 'distinct_nontrivial = configurations with a non-automatic mode',
@@ -1226,7 +1226,190 @@ def c12(ctx):
     ctx.assumptions += X_ASSUMPTIONS + ['predicates are compared as token text with white space removed (the property is about the predicates written, so text is the observable)']
 
 
+# ---------------------------------------------------------------- C01
+class CompileRender(TypeRender):
+    """multi-trait items that must compile: probe-typed fields, real custom methods, real default expressions"""
+    with_finger = False
+
+    def default_value_text(self, v, i, f):
+        return {'int': '%d' % (10 + i), 'expr': 'P::new(3, 0, %d)' % (10 + i)}.get(f['dflt'], 'P::new(3, 0, 1)')
+
+    def type_default_expr(self):
+        return 'todo!()'
+
+    def case_impl(self):
+        return ''
+
+
+class CompileBoundsRender(BoundsRender):
+    def field_type(self, v, i, f):
+        ty = f['ty']
+        if ty == 'PhantomAll':
+            return '::core::marker::PhantomData<(T, U)>' if self.opts['gen'] == 'TU' else "::core::marker::PhantomData<&'a [T; N]>"
+        if ty == 'PhantomT':
+            return '::core::marker::PhantomData<T>'
+        return self.GT[ty]
+
+    def extra_items(self):
+        out = []
+        n = self.name
+        if self.opts['gen'] == 'TU':
+            hdr, ty, wh = 'impl<T, U>', '%s<T, U>' % n, ''
+        else:
+            hdr, ty, wh = "impl<'a, const N: usize, T: Bnd>", "%s<'a, N, T>" % n, 'T: Usr'
+        if 'Copy' in self.traits and 'Clone' not in self.traits:
+            out.append('%s ::core::clone::Clone for %s %s { fn clone(&self) -> Self { unimplemented!() } }' % (hdr, ty, 'where ' + wh if wh else ''))
+        if 'Eq' in self.traits and 'PartialEq' not in self.traits:
+            out.append('%s ::core::cmp::PartialEq for %s %s { fn eq(&self, _: &Self) -> bool { true } }' % (hdr, ty, 'where ' + wh if wh else ''))
+        if 'Ord' in self.traits and 'PartialOrd' not in self.traits:
+            out.append('%s ::core::cmp::PartialOrd for %s where Self: ::core::cmp::PartialEq%s { fn partial_cmp(&self, _: &Self) -> Option<::core::cmp::Ordering> { None } }'
+                       % (hdr, ty, ', ' + wh if wh else ''))
+        return ' '.join(out)
+
+
+SPECIAL_SHAPES = [
+    # shapes the grammars above do not reach: empty / single-variant enums, unit structs, raw identifiers, reprs, where-clauses
+    '#[educe(Clone, PartialEq, Eq, PartialOrd, Ord, Hash)] enum {N} {{}}',
+    '#[educe(Debug(name = true), Clone, Copy, PartialEq, Eq, PartialOrd, Ord, Hash)] enum {N} {{}}',
+    '#[educe(Debug, Clone, Copy, PartialEq, Eq, PartialOrd, Ord, Hash, Default)] struct {N};',
+    '#[educe(Debug, Clone, PartialEq, Eq, PartialOrd, Ord, Hash, Default)] struct {N}();',
+    '#[educe(Debug, Clone, PartialEq, Eq, PartialOrd, Ord, Hash, Default)] struct {N} {{}}',
+    '#[educe(Debug, Clone, PartialEq, Eq, PartialOrd, Ord, Hash, Default)] enum {N} {{ Only }}',
+    '#[educe(Debug, Clone, PartialEq, Eq, PartialOrd, Ord, Hash, Default, Deref, DerefMut, Into(u8))] enum {N} {{ Only(u8) }}',
+    '#[educe(Debug, Clone, PartialEq, Eq, PartialOrd, Ord, Hash, Default)] enum {N} {{ A(), #[educe(Default)] B {{}} }}',
+    '#[educe(Debug, Clone, PartialEq, Eq, PartialOrd, Ord, Hash, Default)] struct {N} {{ r#type: u8, r#fn: u16 }}',
+    '#[educe(Debug, Clone, PartialEq, Eq, PartialOrd, Ord, Hash, Default)] enum {N} {{ r#Self_ {{ r#type: u8 }}, #[educe(Default)] r#Match(u8) }}',
+    '#[educe(Debug, Clone, PartialEq, Eq, PartialOrd, Ord, Hash)] enum r#{N} {{ A {{ r#loop: u8, r#match: u8 }}, B }}',
+    '#[educe(Debug, Clone, Copy, PartialEq, Eq, PartialOrd, Ord, Hash)] #[repr(u8)] enum {N} {{ A = 1, B = 200, C }}',
+    '#[educe(Debug, Clone, PartialEq, Eq, PartialOrd, Ord, Hash)] #[repr(C)] enum {N} {{ A(u8), B {{ x: u16 }} }}',
+    '#[educe(Debug, Clone, PartialEq, Eq, PartialOrd, Ord, Hash)] #[repr(align(8))] enum {N} {{ A(u8), B }}',
+    '#[educe(Debug, Clone, PartialEq, Eq, PartialOrd, Ord, Hash)] #[repr(C, align(4))] struct {N} {{ a: u8 }}',
+    '#[educe(Debug, Clone, PartialEq, Eq, PartialOrd, Ord, Hash)] #[repr(transparent)] struct {N}(u8);',
+    '#[educe(Debug, Clone, PartialEq, Eq, PartialOrd, Ord, Hash)] #[repr(i64)] enum {N} {{ A = -9223372036854775808, B = 9223372036854775807 }}',
+    "#[educe(Debug, Clone, PartialEq, Eq, PartialOrd, Ord, Hash)] struct {N}<'a, 'b: 'a, T: ?Sized + 'a, const K: usize> where T: 'b {{ a: &'a T, b: &'b [u8; K] }}",
+    "#[educe(Debug, Clone, PartialEq, Eq, PartialOrd, Ord, Hash)] enum {N}<'a, T: 'a + ::core::fmt::Debug = u8> {{ A(&'a T), B {{ x: T }} }}",
+    '#[educe(Debug(bound(*)), Clone(bound(*)), PartialEq(bound(*)), Hash(bound(*)))] struct {N}<T, const K: usize, U> {{ a: T, b: [U; K] }}',
+    "#[educe(Debug(bound(*)), Clone(bound(*)))] enum {N}<'a, T, const K: usize> {{ A(&'a T), B([u8; K]) }}",
+    '#[educe(Deref, DerefMut)] struct {N}<T>(T);',
+    "#[educe(Deref)] struct {N}<'a, T>(&'a T);",
+    '#[educe(Deref, DerefMut)] enum {N}<T> {{ A(T), B {{ #[educe(Deref, DerefMut)] x: T, y: u8 }} }}',
+    "#[educe(Into(&'static str), Into(u8))] struct {N} {{ a: &'static str, b: u8 }}",
+    '#[educe(Into(u16))] struct {N}<T> {{ #[educe(Into(u16))] a: T, b: u8 }}',
+    '#[educe(Default(new))] struct {N}<T> {{ a: T, #[educe(Default = 7)] b: u8, #[educe(Default = "x")] c: String, #[educe(Default = \'c\')] d: char, #[educe(Default = 1.5)] e: f32, #[educe(Default = b\'a\')] f: u8, #[educe(Default = b"ab")] g: &\'static [u8; 2], #[educe(Default = true)] h: bool }}',
+    '#[educe(Default(expression = {N}(1, 2)))] struct {N}(u8, u16);',
+    '#[educe(Default(expression = {N}::B(3), new))] enum {N} {{ A, B(u8) }}',
+    '#[educe(Default)] union {N} {{ a: u8, #[educe(Default = 300)] b: u16 }}',
+    '#[educe(Debug(unsafe), Clone, Copy, PartialEq(unsafe), Eq, Hash(unsafe), Default)] union {N} {{ a: u8 }}',
+    '#[educe(Debug(unsafe, name = false), Clone, Copy)] union {N}<T: Copy> {{ a: T, b: u8 }}',
+    '#[educe(Debug(name = false))] struct {N}(u8, u16);',
+    '#[educe(Debug(named_field = false, name = false))] struct {N} {{ a: u8 }}',
+    '#[educe(Debug)] enum {N} {{ #[educe(Debug(name = false))] A(u8, u8), #[educe(Debug(name = false, named_field = false))] B {{ x: u8 }}, #[educe(Debug(named_field = true, name = false))] C(u8) }}',
+    '#[educe(Debug(name = true))] enum {N} {{ #[educe(Debug(name = false))] A, B(u8) }}',
+]
+
+
+def c01(ctx):
+    quick = ctx.tier == 'quick'
+    runs = [{'module': 'MC_C01', 'cfg': 'MC_C01_quick.cfg' if quick else 'MC_C01_thorough.cfg', 'workers': 8, 'timeout': 3000}]
+    corpus = rpipe.model_check(ctx, runs, ['Seal'])
+    st = dict(ctx.coverage)
+    bounds_corpus = rpipe.model_check(ctx, [{'module': 'MC_C12', 'cfg': 'MC_C12_quick.cfg' if quick else 'MC_C12_thorough.cfg', 'workers': 8, 'timeout': 3000}], ['Seal'])
+    ctx.coverage['states'] += st['states']
+    ctx.coverage['transitions'] += st['transitions']
+    ctx.coverage['mc_runs'] = st['mc_runs'] + ctx.coverage['mc_runs']
+    # an insufficient custom / disabled bound is the user's own ill-typed input: such configurations are only
+    # compiled when no field mentions a type parameter
+    def user_bound_ok(c):
+        modes = [v for k, v in c['opts']['bounds'].items() if k != '-']
+        if not any(m in ('custom', 'disabled') for m in modes):
+            return True
+        return all(f['ty'] in ('conc', 'PhantomT', 'PhantomAll', 'A', 'B') for var in c['variants'] for f in var['fields'])
+    bounds_corpus = [c for c in bounds_corpus if user_bound_ok(c)]
+    if quick:
+        bounds_corpus = bounds_corpus[ctx.seed % 6::6]
+    renders = []
+    texts = []
+    for c in corpus:
+        r = CompileRender(len(renders) + 1, c, 'C01')
+        renders.append(r)
+    for c in bounds_corpus:
+        r = CompileBoundsRender(len(renders) + 1, c, 'C01')
+        renders.append(r)
+    items = [(r.item(), r.extra_items(), r.item(derive=False)) for r in renders]
+    for k, tmpl in enumerate(SPECIAL_SHAPES):
+        n = 'S%d' % (k + 1)
+        body = tmpl.format(N=n)
+        items.append(('#[derive(Educe)] ' + body, '', body))
+    # in-process: was the request accepted at all?
+    exe = xchan.build(ctx)
+    raw = xchan.expand(exe, [{'id': i, 'text': t[2]} for i, t in enumerate(items)])
+    accepted = {r['id']: r for r in raw}
+    # real compiler
+    import cases
+    prelude = ('#![allow(dead_code)]\nuse educe::Educe; #[allow(unused_imports)] use probes::*; #[allow(unused_imports)] use ::core::marker::PhantomData; '
+               'pub trait Bnd {} pub trait Usr {} pub trait Cst {} impl Bnd for u8 {} impl Usr for u8 {}')
+    lines = prelude.split('\n')
+    line_of = {}
+    for i, (item, extra, _) in enumerate(items):
+        lines.append('mod m%d { use super::*; %s %s }' % (i, item, extra))
+        line_of[len(lines)] = i
+    lines.append('fn main() {}')
+    d = cases.write_crate('C01', '\n'.join(lines) + '\n')
+    ok, diags, exe2, wall, stderr = cases.cargo_build(d)
+    ctx.info('cargo build C01: ok=%s, %d diagnostics, %.1fs' % (ok, len(diags), wall))
+    per = {i: {'errors': [], 'warnings': 0, 'msgs': []} for i in range(len(items))}
+    for m in diags:
+        msg = m.get('message', {})
+        lvl = msg.get('level')
+        if lvl not in ('error', 'warning'):
+            continue
+        hit = None
+        for sp in msg.get('spans', []):
+            if sp.get('line_start') in line_of:
+                hit = line_of[sp['line_start']]
+                break
+        if hit is None:
+            if lvl == 'error' and not msg.get('message', '').startswith('aborting due to'):
+                raise ToolError('unattributable rustc error: %s' % (msg.get('rendered') or msg.get('message'))[:1500])
+            continue
+        if lvl == 'error':
+            per[hit]['errors'].append((msg.get('code') or {}).get('code') or msg.get('message', '')[:80])
+        else:
+            per[hit]['warnings'] += 1
+        per[hit]['msgs'].append((msg.get('rendered') or msg.get('message', ''))[:1200])
+    if not ok and not any(p['errors'] for p in per.values()):
+        raise ToolError('cargo build failed without attributable errors:\n' + stderr[-2000:])
+    trace = os.path.join(ctx.workdir, 'ktrace.ndjson')
+    with open(trace, 'w') as f:
+        for i in range(len(items)):
+            e = {'t': i + 1, 'op': 'compile', 'expand': accepted[i]['outcome'], 'errors': per[i]['errors'], 'warnings': per[i]['warnings']}
+            f.write(json.dumps(e, separators=(',', ':')) + '\n')
+    res = tlcmod.run_trace('TraceK', 'TraceK.cfg', ctx.workdir, {'TRACE': trace})
+    if not res['consumed']:
+        raise ToolError('TraceK did not consume the trace:\n' + '\n'.join(res['text'].split('\n')[-30:]))
+    ctx.info('K trace validated: %d records, %d rejected' % (res['n'], len(res['bad'])))
+    for ln in res['bad']:
+        i = ln - 1
+        src = items[i][0]
+        cfg = renders[i].cfg if i < len(renders) else {'special': src}
+        ctx.violation({'kind': 'accepted-but-not-clean' if accepted[i]['outcome'] == 'ok' else 'documented-form-refused', 'cfg': cfg},
+                      {'what': 'an acceptable derive request was refused, or its expansion does not compile without errors and warnings',
+                       'source': src, 'in_process': {'outcome': accepted[i]['outcome'], 'err': accepted[i].get('err')},
+                       'rustc': per[i]['msgs'][:5]})
+    ctx.coverage.update({
+        'traces_validated_against_impl': 1, 'trace_events': res['n'], 'trace_events_rejected': len(res['bad']),
+        'programs': len(items), 'evaluations': len(items), 'distinct_nontrivial': sum(1 for c in corpus if nontrivial(c)) + len(bounds_corpus) + len(SPECIAL_SHAPES),
+        'rule': 'multi-trait configurations (eight traits educed together, t-way attribute settings, every spelling / name pool incl. raw and template-internal identifiers), '
+                'the generic-header / bound-mode corpus of C12 (lifetimes, bounded + defaulted type parameters, const parameters, user where-clauses), and a list of special '
+                'shapes (empty / single-variant enums, unit structs, #[repr(..)] forms, raw identifiers, literal kinds); each compiled with the real compiler under '
+                '#![allow(dead_code)] only, errors and warnings attributed per item; each also expanded in process to tell refusal from a compile failure',
+        'samples': [{'source': items[len(items) // 3][0]}, {'record': rpipe.load_lines(trace, [1]).get(1)}],
+    })
+    ctx.assumptions += COMMON_ASSUMPTIONS + ['single-trait shapes, #[repr]/discriminant forms, Deref/Into designations are compiled (and reported the same way) by the checks of C02-C10 and C20']
+
+
 REGISTRY = {
+    'C01': c01,
     'C12': c12,
     'C11': c11,
     'C13': c13,
